@@ -233,6 +233,16 @@ pub fn oracle_c05(scn: &E3Scn, d: &D3, out: &RunOut, stats: &mut Stats) -> Vec<V
                         if c.spawn_t == td {
                             let by_other = (0..n).any(|o| o != bi && eff[o].iter().any(|(e0, at)| *at == td && *e0 <= tb));
                             if !by_other {
+                                // ... unless the run the decision did find going on ended in this same instant (a forwarded
+                                // signal handled right behind the decision): the task that waits for "the end of the current
+                                // run" is a spawned task, and its to_wait() may reach the job only after the job task has gone
+                                // on to collect that run and to start this one - it then waits for the end of *this* run
+                                let found_ended_now = kids.iter().any(|(_, o)| o.spawn_t < td && o.reaped.map(|r| r.0 == td).unwrap_or(false));
+                                if found_ended_now {
+                                    if let Some(r) = reap_t {
+                                        e0s.push(r);
+                                    }
+                                }
                                 continue;
                             }
                         }
